@@ -43,7 +43,7 @@ class P(Prop):
     ID = "C06"
     MODULE = "C06"
     THEOREMS = ["C06_incr_shape", "C06_ends", "C06_sorted", "C06_dominates", "C06_rejects", "C06_segment_end", "C06_segment_left",
-                "C06_segment_right", "C06_segment_narrow", "C06_interpolant", "C06_segment_float", "C06_float_hypotheses_hold", "C06_example"]
+                "C06_segment_right", "C06_segment_narrow", "C06_interpolant", "C06_segment_float", "C06_segment_float_any", "C06_segment_right_float", "C06_float_hypotheses_hold", "C06_example"]
     KERNELS = ["linear::incr_linear", "linear::segment"]
     RULE = ("linear() on 2..12 finite knots: increasing, repeated, out-of-order abscissae, gaps in {eps/4, eps/2, eps(1-2^-53), eps, "
             "eps(1+2^-52), 2eps, 2.5eps} (incl. at offset 1.0), large offsets, knots repeated verbatim (x and y); bit-exact model vs crate (sign of a zero produced by "
